@@ -11,6 +11,8 @@ import (
 	"github.com/nginx/kubernetes-ingress/pkg/apis/configuration/validation"
 	fake_v1 "github.com/nginx/kubernetes-ingress/pkg/client/clientset/versioned/fake"
 	api_v1 "k8s.io/api/core/v1"
+	meta_v1 "k8s.io/apimachinery/pkg/apis/meta/v1"
+	"k8s.io/apimachinery/pkg/runtime"
 	"k8s.io/client-go/kubernetes/fake"
 	"k8s.io/client-go/tools/cache"
 	"k8s.io/client-go/tools/record"
@@ -25,17 +27,25 @@ type VerifC11 struct {
 	handlers cache.ResourceEventHandlerFuncs
 }
 
-// VerifC11New builds the controller through NewLoadBalancerController.
-func VerifC11New(ctx context.Context, cnf *configs.Configurator) *VerifC11 {
+// VerifC11New builds the controller through NewLoadBalancerController, watching the given
+// namespaces (one group of informers each; every one of them watches Secrets).  allNamespaces are
+// the namespaces that exist in the cluster (Active), so that a namespace that stops being
+// watched is recognised as one that lost its label, not as a deleted one.
+func VerifC11New(ctx context.Context, cnf *configs.Configurator, watched, allNamespaces []string) *VerifC11 {
+	var nsObjs []runtime.Object
+	for _, n := range allNamespaces {
+		nsObjs = append(nsObjs, &api_v1.Namespace{ObjectMeta: meta_v1.ObjectMeta{Name: n}, Status: api_v1.NamespaceStatus{Phase: api_v1.NamespaceActive}})
+	}
 	lbc := NewLoadBalancerController(NewLoadBalancerControllerInput{
-		KubeClient:                   fake.NewSimpleClientset(),
+		KubeClient:                   fake.NewSimpleClientset(nsObjs...),
+		WatchNamespaceLabel:          "verif/watch=yes",
 		ConfClient:                   fake_v1.NewSimpleClientset(),
 		Recorder:                     record.NewFakeRecorder(1 << 12),
 		LoggerContext:                ctx,
 		NginxConfigurator:            cnf,
 		IsNginxPlus:                  true,
 		IngressClass:                 "nginx",
-		Namespace:                    []string{""},
+		Namespace:                    watched,
 		SecretNamespace:              []string{""},
 		ControllerNamespace:          "nginx-ingress",
 		AreCustomResourcesEnabled:    true,
@@ -49,40 +59,79 @@ func VerifC11New(ctx context.Context, cnf *configs.Configurator) *VerifC11 {
 	return &VerifC11{lbc: lbc, handlers: createSecretHandlers(lbc)}
 }
 
-func (v *VerifC11) lister() cache.Store { return v.lbc.namespacedInformers[""].secretLister }
-
-// Put creates or updates the Secret in the informer store and delivers the Add / Update event.
-func (v *VerifC11) Put(s *api_v1.Secret) error {
-	old, exists, err := v.lister().Get(s)
-	if err != nil {
-		return err
-	}
-	if exists {
-		if err := v.lister().Update(s); err != nil {
-			return err
-		}
-		v.handlers.UpdateFunc(old, s)
+// lister is the Secret informer store of the namespace, nil when the namespace is not watched.
+func (v *VerifC11) lister(ns string) cache.Store {
+	nsi := v.lbc.namespacedInformers[ns]
+	if nsi == nil {
 		return nil
 	}
-	if err := v.lister().Add(s); err != nil {
-		return err
+	return nsi.secretLister
+}
+
+// Put creates or updates the Secret in the informer store of its namespace and delivers the
+// Add / Update event.  Nothing happens (false) when the namespace is not watched.
+func (v *VerifC11) Put(s *api_v1.Secret) (bool, error) {
+	l := v.lister(s.Namespace)
+	if l == nil {
+		return false, nil
+	}
+	old, exists, err := l.Get(s)
+	if err != nil {
+		return true, err
+	}
+	if exists {
+		if err := l.Update(s); err != nil {
+			return true, err
+		}
+		v.handlers.UpdateFunc(old, s)
+		return true, nil
+	}
+	if err := l.Add(s); err != nil {
+		return true, err
 	}
 	v.handlers.AddFunc(s)
-	return nil
+	return true, nil
 }
 
 // Del removes the Secret from the informer store and delivers the Delete event.
-func (v *VerifC11) Del(key string) (bool, error) {
-	old, exists, err := v.lister().GetByKey(key)
+func (v *VerifC11) Del(ns, name string) (bool, error) {
+	l := v.lister(ns)
+	if l == nil {
+		return false, nil
+	}
+	old, exists, err := l.GetByKey(ns + "/" + name)
 	if err != nil || !exists {
 		return false, err
 	}
-	if err := v.lister().Delete(old); err != nil {
+	if err := l.Delete(old); err != nil {
 		return true, err
 	}
 	v.handlers.DeleteFunc(old)
 	return true, nil
 }
+
+// PreSync is the start-up step of Run between WaitForCacheSync and the start of the queue.
+func (v *VerifC11) PreSync() { v.lbc.preSyncSecrets() }
+
+// Unwatch: the namespace lost the watch label (it is gone from the labelled-namespace store and
+// still Active in the cluster); the real lbc.sync processes the namespace task.
+func (v *VerifC11) Unwatch(ns string) {
+	v.lbc.sync(task{Kind: namespace, Key: ns})
+}
+
+// Watch: the namespace got the watch label.  The informer group is created by the real
+// newNamespacedInformer (what syncNamespace does first); it is not started -- the harness then
+// delivers the Add events for the Secrets that exist in it through Put.
+func (v *VerifC11) Watch(ns string) bool {
+	if v.lbc.namespacedInformers[ns] != nil {
+		return false
+	}
+	v.lbc.newNamespacedInformer(ns)
+	return true
+}
+
+// Watched tells whether the namespace has an informer group.
+func (v *VerifC11) Watched(ns string) bool { return v.lbc.namespacedInformers[ns] != nil }
 
 // Drain is the worker: it takes every queued task, in queue order, and runs the real lbc.sync on
 // each.  The tasks are taken off the queue first, so that sync sees an empty queue and does not
